@@ -33,10 +33,12 @@ COMPONENTS = {
 }
 ASSUMPTIONS = ["a caller treats a MaxCycles return as 'the whole budget elapsed' and an event return as "
                "'cycles_executed elapsed' (the reading under which budgets partition a run)"]
-PROBES = ["same_cycle_tie", "sleep_zero", "budget_zero", "budget_lt_sleep", "event_returned", "late_spawn",
+PROBES = ["task_yields_without_sleep", "sleep_built_before_spawn", "sleep_for_ever", "unbounded_budget", "same_cycle_tie", "sleep_zero", "budget_zero", "budget_lt_sleep", "event_returned", "late_spawn",
           "two_events_same_cycle", "start_clock_big", "async_slice_1", "async_timer_fired", "async_halt"]
 DUR = [0, 1, 2, 3, 5, 8, 13]
 BIG = 1 << 20
+U64MAX = (1 << 64) - 1
+NEVER = 1 << 63          # a resumption due at or beyond this cycle is never owed
 
 
 def batches(tier: str) -> List[Batch]:
@@ -51,7 +53,13 @@ def _gen_task(r: Rng, with_events: bool) -> List[list]:
         d = r.choice(DUR)
         # payloads repeat on purpose (two tasks emitting the same value in one cycle are two events)
         e = (r.choice([7, 7, 42]) if r.chance(1, 3) else r.range(1, 99)) if (with_events and r.chance(1, 4)) else None
-        steps.append([d, e])
+        # how the task waits: 0 = sleep_cycles(d).await; 1 = it returns Pending once without asking for a wake-up
+        # (the driver's rule: polled again one cycle later); 2 = the sleep future was built before the task was
+        # spawned (a plan made up front) and is only awaited here — its deadline still counts from the await
+        st = r.weighted([(0, 8), (1, 2), (2, 2)])
+        steps.append([1 if st == 1 else d, e, st])
+    if r.chance(1, 12):
+        steps.append([U64MAX, None, r.choice([0, 2])])      # parks itself for ever
     return steps
 
 
@@ -85,14 +93,15 @@ def generate(batch: str, r: Rng, idx: int, tier: str) -> Dict[str, Any]:
     if batch == "driver":
         with_events = r.chance(1, 2)
         tasks = [_gen_task(r.child("t", i), with_events) for i in range(r.range(1, 4))]
-        horizon = max(sum(s[0] for s in t) for t in tasks)
+        horizon = max(sum(s[0] for s in t if s[0] < NEVER) for t in tasks)
         total = r.range(1, max(2, horizon + 6))
         late = None
         budgets = _partition(r.child("p"), total)
         if r.chance(1, 5) and len(budgets) > 1:
             late = [r.range(1, len(budgets) - 1), _gen_task(r.child("late"), with_events)]
+        # the budgets that drain the queue after the partition: large, or "unbounded" as the command-line front end passes it
         return {"kind": "driver", "exec": "rs-driver", "start": r.choice([0, 0, 7, 1 << 32]),
-                "tasks": tasks, "budgets": budgets, "late": late}
+                "tasks": tasks, "budgets": budgets, "late": late, "drain": r.child("drain").choice([BIG, BIG, U64MAX])}
     feat = machine.gen_features(r.child("feat"), {"timers": True, "imr_writes": True, "isr_writes": True,
                                                   "wait": True, "halt": True, "ir": True, "calls": True,
                                                   "far_calls": True, "nested": True, "off": True,
@@ -116,7 +125,7 @@ def _drive(scn: Dict[str, Any], budgets: List[int], late) -> Dict[str, Any]:
 
 def execute(scn: Dict[str, Any]) -> Dict[str, Any]:
     if scn["kind"] == "driver":
-        drain = [BIG] * (2 + sum(len(t) for t in scn["tasks"]) + (len(scn["late"][1]) if scn["late"] else 0))
+        drain = [scn.get("drain", BIG)] * (2 + sum(len(t) for t in scn["tasks"]) + (len(scn["late"][1]) if scn["late"] else 0))
         part = _drive(scn, scn["budgets"] + drain, scn["late"])
         again = _drive(scn, scn["budgets"] + drain, scn["late"])
         # single-budget reference: the late task is spawned at the same point of the call
@@ -153,8 +162,8 @@ def _model(scn: Dict[str, Any], result_clocks: List[int]):
     events: List[Tuple[int, int, int, int]] = []   # (cycle, task, idx, event)
     for t, steps in enumerate(scn["tasks"]):
         c = scn["start"]
-        for i, (d, e) in enumerate(steps):
-            c += d
+        for i, (d, e, *_) in enumerate(steps):
+            c = min(c + d, U64MAX)
             due[(t, i)] = c
             if e is not None:
                 events.append((c, t, i, e))
@@ -163,8 +172,8 @@ def _model(scn: Dict[str, Any], result_clocks: List[int]):
         spawn = result_clocks[bi - 1] if bi >= 1 else scn["start"]
         t = len(scn["tasks"])
         c = spawn
-        for i, (d, e) in enumerate(steps):
-            c += d
+        for i, (d, e, *_) in enumerate(steps):
+            c = min(c + d, U64MAX)
             due[(t, i)] = c
             if e is not None:
                 events.append((c, t, i, e))
@@ -221,7 +230,7 @@ def check(scn: Dict[str, Any], hist: Dict[str, Any]) -> List[Dict[str, Any]]:
         elif c > want:
             V("wake_late", f"task {t} resumption {i} ran at cycle {c}, asked for {want}", phase="any", cause="late_cycle")
     # (2) nothing missing after the drain
-    missing = [k for k in due if k not in seen]
+    missing = [k for k in due if k not in seen and due[k] < NEVER]
     if missing:
         V("wake_late", f"{len(missing)} resumptions never happened, e.g. task {missing[0][0]} #{missing[0][1]} due at "
           f"{due[missing[0]]}", phase="drain", cause="never")
@@ -290,14 +299,23 @@ def stats(scn: Dict[str, Any], hist: Dict[str, Any]) -> Dict[str, Any]:
     faults: Dict[str, int] = {}
     if scn["kind"] == "driver":
         due, events = _model(scn, [r[2] for r in hist["part"]["results"]])
-        times = sorted(due.values())
+        times = sorted(v for v in due.values() if v < NEVER)
         if any(a == b for a, b in zip(times, times[1:])):
             probes["same_cycle_tie"] = 1
-        if any(d == 0 for t in scn["tasks"] for d, _ in t):
+        styles = [st[2] if len(st) > 2 else 0 for t in scn["tasks"] for st in t]
+        if 1 in styles:
+            probes["task_yields_without_sleep"] = 1
+        if 2 in styles:
+            probes["sleep_built_before_spawn"] = 1
+        if any(st[0] >= NEVER for t in scn["tasks"] for st in t):
+            probes["sleep_for_ever"] = 1
+        if scn.get("drain") == U64MAX:
+            probes["unbounded_budget"] = 1
+        if any(d == 0 for t in scn["tasks"] for d, *_ in t):
             probes["sleep_zero"] = 1
         if 0 in scn["budgets"]:
             probes["budget_zero"] = 1
-        mx = max(d for t in scn["tasks"] for d, _ in t)
+        mx = max([d for t in scn["tasks"] for d, *_ in t if d < NEVER] or [0])
         if any(b < mx for b in scn["budgets"]):
             probes["budget_lt_sleep"] = 1
         if events:
